@@ -35,7 +35,7 @@ def main():
         if os.path.exists(cp):
             cj = json.load(open(cp))
             also = ", ".join(k for k, v in cj.get("checks", {}).items() if v.get("rc") == 1 and k != m.get("property"))
-        print(f"| {d}{' (r2)' if m.get('round') == 2 else ''} | {m.get('property')} | {short(m.get('summary', ''), 140)} — *{short(needs, 110)}* | "
+        print(f"| {d}{' (r%d)' % m['round'] if m.get('round', 1) > 1 else ''} | {m.get('property')} | {short(m.get('summary', ''), 140)} — *{short(needs, 110)}* | "
               f"{lc.get('demo_clean_rc')}/{lc.get('demo_patched_rc')} | {short(lc.get('suite', ''), 12)} | {caught} | {also} | {first} |")
         if m.get("lead_note"):
             print(f"| | | ↳ {short(m['lead_note'], 400)} | | | | | |")
